@@ -388,6 +388,67 @@ Definition idem_hyp_checks alnum cfg (segs : list seg) : list bool :=
 
 Definition idem_hypb alnum cfg segs : bool := forallb (fun b : bool => b) (idem_hyp_checks alnum cfg segs).
 
+(* the same without check 5: that the second run ignores nothing follows from the others (FormatIdemProofs.second_run_ignores_nothing) *)
+Definition idem_hyp_checks_min alnum cfg (segs : list seg) : list bool :=
+  let F := fm_final alnum cfg segs in
+  let l4 := fm_l4 alnum segs in
+  match lex_segments (reconstruct (cfg_rs cfg) F) with
+  | None => [false]
+  | Some segs2 =>
+      [ true;
+        list_eqb bytes_eqb (map seg_ws segs2) (glue_list (cfg_rs cfg) false F)
+        && list_eqb bytes_eqb (map seg_content segs2) (map (fun p : ftoken => t_content (fst p)) F);
+        list_eqb RawTokenType_eqb (map seg_ty segs2) (map seg_ty segs);
+        forallb not_asmb (map seg_ty segs);
+        forallb negb (fm_marks segs);
+        negb (c_fms cfg) || forallb (fun tok => negb (is_ml_string (t_ty tok))) (fm_toks segs);
+        forallb (fun x : (nat * bool) * ftoken =>
+                   snd (fst x) || eof_set (fm_lines segs) (length segs) (fst (fst x)) (t_ty (fst (snd x))))
+                (combine (combine (seq 0 (length segs)) (decided_marks alnum cfg segs)) l4);
+        list_eqb N.eqb (sp_list (fm_l4 alnum segs2)) (sp_list l4) ]
+  end.
+Definition idem_hypb_min alnum cfg segs : bool := forallb (fun b : bool => b) (idem_hyp_checks_min alnum cfg segs).
+
+(* ... and with the raw kinds of the re-scan compared up to the Individual / Inline flag of comments only (FormatIdemKindsProofs:
+   the flag follows from the first run: every token decided, and no Inline comment directly after a `//` comment) *)
+Definition unflag_raw (ty : RawTokenType) : RawTokenType :=
+  match ty with
+  | RTT_Comment ck =>
+      RTT_Comment match ck with
+                  | CoK_InlineLine | CoK_IndividualLine => CoK_InlineLine
+                  | CoK_InlineBlock | CoK_IndividualBlock => CoK_InlineBlock
+                  | CoK_MultilineBlock => CoK_MultilineBlock
+                  end
+  | _ => ty
+  end.
+Definition is_inline_comment (ty : TokenType) : bool :=
+  match ty with TT_Comment (CoK_InlineLine | CoK_InlineBlock) => true | _ => false end.
+Fixpoint no_inline_after_slb (tys : list TokenType) : bool :=
+  match tys with
+  | a :: r => match r with b :: _ => negb (is_sl_comment a && is_inline_comment b) | [] => true end && no_inline_after_slb r
+  | [] => true
+  end.
+Definition idem_hyp_checks_kinds alnum cfg (segs : list seg) : list bool :=
+  let F := fm_final alnum cfg segs in
+  let l4 := fm_l4 alnum segs in
+  match lex_segments (reconstruct (cfg_rs cfg) F) with
+  | None => [false]
+  | Some segs2 =>
+      [ true;
+        list_eqb bytes_eqb (map seg_ws segs2) (glue_list (cfg_rs cfg) false F)
+        && list_eqb bytes_eqb (map seg_content segs2) (map (fun p : ftoken => t_content (fst p)) F);
+        list_eqb RawTokenType_eqb (map (fun sg => unflag_raw (seg_ty sg)) segs2) (map (fun sg => unflag_raw (seg_ty sg)) segs);
+        forallb not_asmb (map seg_ty segs);
+        forallb negb (fm_marks segs);
+        negb (c_fms cfg) || forallb (fun tok => negb (is_ml_string (t_ty tok))) (fm_toks segs);
+        forallb (fun x : (nat * bool) * ftoken =>
+                   snd (fst x) || eof_set (fm_lines segs) (length segs) (fst (fst x)) (t_ty (fst (snd x))))
+                (combine (combine (seq 0 (length segs)) (decided_marks alnum cfg segs)) l4);
+        no_inline_after_slb (fm_tys segs);
+        list_eqb N.eqb (sp_list (fm_l4 alnum segs2)) (sp_list l4) ]
+  end.
+Definition idem_hypb_kinds alnum cfg segs : bool := forallb (fun b : bool => b) (idem_hyp_checks_kinds alnum cfg segs).
+
 (* ------------------------------------------------------------------ *)
 (* Acceptance predicate of Proofs/LexerCrlfProofs.v (lex_crlf) / FormatCrlfLinkProofs.v (format_crlf_input_linked), evaluated by the
    driver unit `crlfhyp`: no token text contains a LF or a CR; a directive token has its closing delimiter
